@@ -468,6 +468,12 @@ func (e *env) selectField(base *sym, name string, x Expr) *sym {
 		}
 		e.errf("no field %s in %s (%s)", name, base.pl.typ, x)
 	}
+	// an interior pointer handed over as an argument (&xs[i], &x.f): its target is the place itself
+	if base.pl != nil && base.t != "" {
+		if pt := derefType(base.typ); pt != nil && types.Identical(pt, base.pl.typ) {
+			return e.selectField(&sym{typ: base.pl.typ, pl: base.pl}, name, x)
+		}
+	}
 	// pointer value
 	if pt := derefType(base.typ); pt != nil {
 		if !transparentStruct(pt) {
@@ -691,6 +697,17 @@ func (e *env) call(x *ECall) *sym {
 			e.errf("visited: loop is not a map range")
 		}
 		return &sym{t: "(select " + e.f.visitedAt(rg, e.cur) + " " + k.t + ")", typ: tBool}
+	case "deref":
+		// deref(p): the location a pointer to a non-struct value (e.g. *[]T, *string) points to
+		a := e.rvalue(x.Args[0])
+		av := e.value(x.Args[0])
+		if av.pl != nil && av.t != "" && derefType(av.typ) != nil {
+			return &sym{typ: derefType(av.typ), pl: av.pl}
+		}
+		if derefType(a.typ) == nil {
+			e.errf("deref of non-pointer %s", x.Args[0])
+		}
+		return &sym{typ: derefType(a.typ), pl: vc.placeOfPointer(a)}
 	case "mapref", "sliceref", "ref":
 		return arg(0)
 	case "upd":
